@@ -25,6 +25,12 @@ def emptySt : St := { h := fun _ => {}, alloc := 0, root := none, size := 0 }
 
 def run (s : S) (fn : PName) (args : List Val) : Res (Val × St) := call s.cmp procs fuel fn args s.st
 
+/-- the interpreter's heap is a closure that grows by one `if` per write; re-tabulate it after every call so that a read
+    stays O(1) (driver-side only: the function denoted is the same on every address) -/
+def compact (st : St) : St :=
+  let arr : Array Node := Array.ofFn (n := st.alloc) fun i => st.h i.val
+  { st with h := fun a => if h : a < arr.size then arr[a] else {} }
+
 def failTok : Fail → String
   | .panic => "panic:nil-dereference"
   | .fuel => "diverged"
@@ -116,6 +122,7 @@ def checker (model : Bool) : Checker :=
           | none => (sg, some s!"bad-op {op}")
           | some (.error e) => (sg, some s!"the translated program fails ({failTok e}) where the implementation answered {got}")
           | some (.ok (tok, st1)) =>
+            let st1 := compact st1
             let s1 : S := { s with st := st1 }
             let n := (fieldNat obs "len").getD 0
             let r : Option String :=
